@@ -261,7 +261,9 @@ fn run_variant(scratch: &Scratch, header_name: &str, text: &str, vname: &str, fl
             if c.is_packed && !c.opaque && agg.packed.is_none() && rl.fields.iter().any(|f| f.2 > ca) { regions.push("packed_dropped".into()); }
         }
         if let Some(n) = agg.packed {
-            if n > 1 && c.fields.iter().any(|f| !f.is_unit && match (f.off_bits, f.layout) { (Some(o), Some((_, a))) => (o / 8) % a.max(1).min(n) != 0, _ => false }) {
+            let rejected_shape = agg.align.is_some() || agg.fields.iter().any(|f| inv.contains_align(&f.1, 0));
+            if n > 1 && !agg.is_union && (c.fields.iter().any(|f| !f.is_unit && match (f.off_bits, f.layout) { (Some(o), Some((_, a))) => (o / 8) % a.max(1).min(n) != 0, _ => false })
+                || (!rejected_shape && real_layout.as_ref().map_or(false, |rl| c.fields.iter().any(|f| !f.is_unit && match (&f.name, f.off_bits) { (Some(nm), Some(o)) => rl.offsets.iter().any(|(rn, ro)| rn == nm && o / 8 < *ro), _ => false })))) {
                 regions.push("packedN_misplaces".into());
             }
         }
